@@ -2,7 +2,7 @@
    it writes carries the true position of the place of the text it is about (C16). *)
 From Coq Require Import List NArith ZArith Bool Lia.
 Import ListNotations.
-From GY Require Import Model.Lex Model.Parse Spec.C16 Proofs.LexProofs.
+From GY Require Import Model.Lex Model.Parse Spec.C16 Spec.C02 Proofs.LexProofs.
 Local Open Scope Z_scope.
 
 Lemma run_state_inv text l : LInv text l -> LInv text (run_state l).
@@ -313,4 +313,372 @@ Proof.
     intros Q; injection Q as <- <- <-.
   - split; [congruence|left; reflexivity].
   - split; [reflexivity|right; reflexivity].
+Qed.
+
+(* ================================================================ C02: the parser accepts what the reference reader accepts *)
+Definition frame (p p' : parser) : Prop := toks p' = toks p /\ depth p' = depth p /\ oof p' = oof p.
+
+Lemma read_token_punct_indep text pat s c s3 :
+  read_token text false s = TOk (KPunct c) s3 -> read_token text pat s = TOk (KPunct c) s3.
+Proof.
+  unfold read_token. destruct (skip InGap s) as [[|c0 r]|]; try discriminate.
+  destruct (punct c0); [auto|]. destruct (c0 =? cSQ)%N; [destruct (squoted r) as [[u s']|]; discriminate|].
+  destruct (c0 =? cDQ)%N.
+  - destruct (dquoted false _ r); discriminate.
+  - destruct (unquoted (c0 :: r)) as [u s']. destruct (opener_in (tl u)); discriminate.
+Qed.
+
+Lemma tok_matches_not_error k t : tok_matches k t -> is_TError t = false.
+Proof. unfold is_TError. destruct k; cbn; try contradiction; intros [-> _]; reflexivity. Qed.
+
+Definition raw_result (text : str) (p : parser) (res : option token * parser) (r : tres) : Prop :=
+  match r with
+  | TOk KEnd _ => exists p', res = (None, p') /\ same_errs (lx p) (lx p') /\ frame p p' /\ state (lx p') = SDone /\ items (lx p') = []
+  | TOk k s' => exists t p', res = (Some t, p') /\ tok_matches k t /\ same_errs (lx p) (lx p') /\ frame p p' /\ glex text (lx p') s'
+  | _ => True
+  end.
+
+Lemma raw_sim text p s : ~ In EOFR text -> lf_term text -> glex text (lx p) s ->
+  raw_result text p (raw p) (read_token text (inPattern (lx p)) s).
+Proof.
+  intros NE LT G.
+  assert (Hf : (2 * length s + 4 <= lex_fuel (lx p))%nat).
+  { unfold lex_fuel. destruct G as (_ & _ & _ & ->). lia. }
+  pose proof (NextToken_sim text NE LT (length s) s (lx p) _ (le_n _) G Hf) as R. unfold token_result in R.
+  unfold raw, raw_fuel. replace (length (after (cu (lx p))) + 12)%nat with (S (length (after (cu (lx p))) + 11)) by lia.
+  cbn [raw_next].
+  destruct (read_token text (inPattern (lx p)) s) as [[u|u|c|] s'| |]; try exact I; cbn [tr_of raw_result] in *.
+  1-3: destruct R as (t & l' & -> & M & SE & G'); rewrite (tok_matches_not_error _ _ M);
+       exists t, (with_lx p l'); split; [reflexivity|split; [exact M|split; [exact SE|split; [repeat split|exact G']]]].
+  destruct R as (l' & -> & SE & A & B). exists (with_lx p l'). split; [reflexivity|]. split; [exact SE|]. split; [repeat split|]. split; assumption.
+Qed.
+
+(* where the parser stands in the text: its lexer is in the ground state at [s], or it holds one pushed-back
+   punctuation token and re-reading that token from [s] leads to where the lexer is *)
+Inductive ppos (text : str) (p : parser) (s : str) : Prop :=
+| PP_direct : toks p = [] -> glex text (lx p) s -> ppos text p s
+| PP_pushed t c s1 : toks p = [t] -> tokq (TChar c) [c] t -> read_token text false s = TOk (KPunct c) s1 ->
+                     glex text (lx p) s1 -> ppos text p s.
+
+Definition pframe (p p' : parser) : Prop :=
+  same_errs (lx p) (lx p') /\ depth p' = depth p /\ oof p' = oof p.
+Lemma pframe_refl p : pframe p p. Proof. repeat split. Qed.
+Lemma pframe_trans a b c : pframe a b -> pframe b c -> pframe a c.
+Proof. intros (A1 & A2 & A3) (B1 & B2 & B3). split; [eapply same_errs_trans; eauto|split; congruence]. Qed.
+
+Lemma is_code t c u : tokq c u t ->
+  is_TString t = (match c with TString => true | _ => false end) /\
+  is_TUnquoted t = (match c with TUnquoted => true | _ => false end) /\
+  (forall d, is_TChar d t = match c with TChar e => (d =? e)%N | _ => false end).
+Proof. intros [H _]. unfold is_TString, is_TUnquoted, is_TChar. rewrite H. destruct c; auto. Qed.
+
+(* the concatenation loop *)
+Lemma concat_loop_sim text : ~ In EOFR text -> lf_term text -> forall fs pat acc s1 arg s2 c s3,
+  pieces fs text pat acc s1 = AOk true arg s2 -> read_token text false s2 = TOk (KPunct c) s3 ->
+  forall fm t p, (fs <= fm)%nat -> toks p = [] -> glex text (lx p) s1 -> inPattern (lx p) = pat -> tokq TString acc t ->
+  exists t' p', concat_loop fm t p = (Some t', p') /\ tokq TString arg t' /\ ppos text p' s2 /\ pframe p p' /\
+                inPattern (lx p') = pat.
+Proof.
+  intros NE LT. induction fs as [|fs IH]; intros pat acc s1 arg s2 c s3 Hp Hr fm t p Hfm Ht G Hpat Hq; [discriminate|].
+  destruct fm as [|fm]; [lia|]. cbn [pieces] in Hp. cbn [concat_loop].
+  pose proof (raw_sim text p s1 NE LT G) as R1. rewrite Hpat in R1.
+  destruct (read_token text pat s1) as [[u|u|c1|] s1'| |] eqn:E1; try discriminate.
+  - (* an unquoted token: must be + *)
+    destruct R1 as (nt & p1 & -> & M1 & SE1 & (F1a & F1b & F1c) & G1).
+    destruct (is_code _ _ _ M1) as (_ & -> & _). destruct M1 as [_ M1t]. rewrite M1t. cbn [andb].
+    destruct (str_eqb u s_plus) eqn:Eplus.
+    + pose proof (raw_sim text p1 s1' NE LT G1) as R2.
+      assert (Hpat1 : inPattern (lx p1) = pat) by (destruct SE1 as (_ & _ & ->); exact Hpat). rewrite Hpat1 in R2.
+      destruct (read_token text pat s1') as [[v|v|c2|] s2'| |] eqn:E2; try discriminate.
+      destruct R2 as (nnt & p2 & -> & M2 & SE2 & (F2a & F2b & F2c) & G2).
+      destruct (is_code _ _ _ M2) as (-> & _ & _).
+      destruct (IH pat (acc ++ v) s2' arg s2 c s3 Hp Hr fm (set_text t (t_text t ++ t_text nnt)) p2 ltac:(lia)) as (t' & p' & A & B & C & D & E).
+      * rewrite F2a, F1a. exact Ht.
+      * exact G2.
+      * destruct SE2 as (_ & _ & ->). exact Hpat1.
+      * destruct Hq as [Hq1 Hq2]. destruct M2 as [_ M2t]. split; [exact Hq1|]. cbn [set_text t_text]. rewrite Hq2, M2t. reflexivity.
+      * exists t', p'. split; [exact A|split; [exact B|split; [exact C|split; [|exact E]]]].
+        eapply pframe_trans; [|exact D]. eapply pframe_trans; [split; [exact SE1|split; assumption]|split; [exact SE2|split; assumption]].
+    + (* not a + : then it would have to be the punctuation that follows; impossible *)
+      injection Hp as <- <-. rewrite (read_token_punct_indep text pat s1 c s3 Hr) in E1. discriminate.
+  - injection Hp as <- <-. rewrite (read_token_punct_indep text pat s1 c s3 Hr) in E1. discriminate.
+  - (* the punctuation that follows the argument: pushed back *)
+    injection Hp as <- <-. rewrite (read_token_punct_indep text pat s1 c s3 Hr) in E1. injection E1 as <- <-.
+    destruct R1 as (nt & p1 & -> & M1 & SE1 & (F1a & F1b & F1c) & G1).
+    destruct (is_code _ _ _ M1) as (_ & -> & _). cbn [andb].
+    exists t, (with_toks p1 (nt :: toks p1)). split; [reflexivity|]. split; [exact Hq|]. split.
+    + apply (PP_pushed text _ s1 nt c s3); [cbn [with_toks toks]; rewrite F1a, Ht; reflexivity|exact M1|exact Hr|exact G1].
+    + split; [split; [exact SE1|split; assumption]|]. cbn [with_toks lx]. destruct SE1 as (_ & _ & ->). exact Hpat.
+  - injection Hp as <- <-. rewrite (read_token_punct_indep text pat s1 c s3 Hr) in E1. discriminate.
+Qed.
+
+(* pnext on a token that is not a quoted string *)
+Lemma pnext_plain text p s k s' : ~ In EOFR text -> lf_term text -> ppos text p s ->
+  read_token text (inPattern (lx p)) s = TOk k s' -> (forall u, k <> KStr u) ->
+  match k with
+  | KEnd => exists p', pnext p = (None, p') /\ pframe p p' /\ toks p' = []
+  | _ => exists t p', pnext p = (Some t, p') /\ tok_matches k t /\ pframe p p' /\ toks p' = [] /\ glex text (lx p') s'
+  end.
+Proof.
+  intros NE LT P Hr Hk. destruct P as [Ht G|t c s1 Ht Hq Hr' G].
+  - unfold pnext. rewrite Ht. pose proof (raw_sim text p s NE LT G) as R. rewrite Hr in R.
+    destruct k as [u|u|c|]; cbn [raw_result] in R.
+    + destruct R as (t & p' & -> & M & SE & (F1 & F2 & F3) & G'). destruct (is_code _ _ _ M) as (-> & _).
+      exists t, p'. split; [reflexivity|]. split; [exact M|]. split; [split; [exact SE|split; assumption]|].
+      split; [rewrite F1; exact Ht|exact G'].
+    + exfalso. apply (Hk u). reflexivity.
+    + destruct R as (t & p' & -> & M & SE & (F1 & F2 & F3) & G'). destruct (is_code _ _ _ M) as (-> & _).
+      exists t, p'. split; [reflexivity|]. split; [exact M|]. split; [split; [exact SE|split; assumption]|].
+      split; [rewrite F1; exact Ht|exact G'].
+    + destruct R as (p' & -> & SE & (F1 & F2 & F3) & _). exists p'. split; [reflexivity|].
+      split; [split; [exact SE|split; assumption]|rewrite F1; exact Ht].
+  - rewrite (read_token_punct_indep text _ s c s1 Hr') in Hr. injection Hr as <- <-.
+    unfold pnext. rewrite Ht. exists t, (with_toks p []). split; [reflexivity|]. split; [exact Hq|].
+    split; [repeat split|]. split; [reflexivity|exact G].
+Qed.
+
+(* the optional argument and the token after it *)
+Definition read_arg (p : parser) (pat : bool) : bool * str * option token * parser :=
+  let p := with_lx p (with_inPattern (lx p) pat) in
+  let (t2, p) := pnext p in
+  let p := with_lx p (with_inPattern (lx p) false) in
+  match t2 with
+  | Some a => if is_TString a || is_TUnquoted a
+              then let (t3, p) := pnext p in (true, t_text a, t3, p)
+              else (false, [], t2, p)
+  | None => (false, [], t2, p)
+  end.
+
+Lemma ns_tail_eq f t p : ns_tail f t p =
+  let '(has, arg, t3, p) := read_arg p (str_eqb (t_text t) s_pattern) in
+  match t3 with
+  | None => (RNil, add_err p None EUnexpectedEOF None)
+  | Some t3 =>
+    if is_TChar cSEMI t3 then (RStmt (Stmt (t_text t) has arg (t_line t) (t_col t) (t_off t) []), p)
+    else if is_TChar cLB t3 then
+      subs_loop (nextStatement f) (fun l => Stmt (t_text t) has arg (t_line t) (t_col t) (t_off t) l) f
+        {| lx := lx p; toks := toks p; depth := depth p + 1; hb_line := hb_line p;
+           hb_col := hb_col p; hb_off := hb_off p; oof := oof p |} []
+    else (RIgnore, add_err p (tok_pos t3) ESyntax (Some (t_off t3)))
+  end.
+Proof.
+  unfold ns_tail, read_arg. cbv zeta.
+  destruct (pnext (with_lx p (with_inPattern (lx p) (str_eqb (t_text t) s_pattern)))) as [t2 p1].
+  destruct t2 as [a|]; [|reflexivity]. destruct (is_TString a || is_TUnquoted a); [|reflexivity].
+  destruct (pnext (with_lx p1 (with_inPattern (lx p1) false))) as [t3 p2]. reflexivity.
+Qed.
+
+Lemma glex_inPattern text l s b : glex text l s -> glex text (with_inPattern l b) s.
+Proof. intros (A & B & C & D). repeat split; auto; apply C. Qed.
+
+Lemma pieces_has text pat : forall f acc s has arg s2, pieces f text pat acc s = AOk has arg s2 -> has = true.
+Proof.
+  induction f as [|f IH]; intros acc s has arg s2 H; [discriminate|]. cbn [pieces] in H.
+  destruct (read_token text pat s) as [[u|u|c|] s1| |]; try discriminate; try (injection H as <- _ _; reflexivity).
+  destruct (str_eqb u s_plus); [|injection H as <- _ _; reflexivity].
+  destruct (read_token text pat s1) as [[v|v|c|] s1'| |]; try discriminate. eapply IH; eauto.
+Qed.
+
+Lemma read_arg_sim text p s1 pat has arg s2 c s3 : ~ In EOFR text -> lf_term text ->
+  toks p = [] -> glex text (lx p) s1 ->
+  argument text pat s1 = AOk has arg s2 -> read_token text false s2 = TOk (KPunct c) s3 ->
+  exists t3 p', read_arg p pat = (has, arg, Some t3, p') /\ tokq (TChar c) [c] t3 /\
+                toks p' = [] /\ glex text (lx p') s3 /\ inPattern (lx p') = false /\
+                errs (lx p') = errs (lx p) /\ errcnt (lx p') = errcnt (lx p) /\ depth p' = depth p /\ oof p' = oof p.
+Proof.
+  intros NE LT Ht G Ha Hr. unfold read_arg. cbv zeta.
+  set (p0 := with_lx p (with_inPattern (lx p) pat)).
+  assert (G0 : glex text (lx p0) s1) by (apply glex_inPattern; exact G).
+  assert (P0 : ppos text p0 s1) by (apply PP_direct; [exact Ht|exact G0]).
+  unfold argument in Ha.
+  destruct (read_token text pat s1) as [[u|u|c1|] s1'| |] eqn:E1; try discriminate.
+  - (* unquoted argument *)
+    injection Ha as <- <- <-.
+    destruct (pnext_plain text p0 s1 (KUnq u) s1' NE LT P0 E1 ltac:(discriminate)) as (t2 & p1 & -> & M & (SE & D1 & O1) & T1 & G1).
+    destruct (is_code _ _ _ M) as (_ & -> & _). rewrite orb_true_r.
+    set (p2 := with_lx p1 (with_inPattern (lx p1) false)).
+    assert (P2 : ppos text p2 s1') by (apply PP_direct; [exact T1|apply glex_inPattern; exact G1]).
+    destruct (pnext_plain text p2 s1' (KPunct c) s3 NE LT P2 Hr ltac:(discriminate)) as (t3 & p3 & -> & M3 & (SE3 & D3 & O3) & T3 & G3).
+    exists t3, p3. destruct M as [_ ->]. split; [reflexivity|]. split; [exact M3|]. split; [exact T3|]. split; [exact G3|].
+    destruct SE as (S1 & S2 & S3). destruct SE3 as (S4 & S5 & S6).
+    unfold p2, p0 in *. cbn [with_lx lx with_inPattern errs errcnt inPattern depth oof] in *.
+    repeat split; congruence.
+  - (* quoted pieces *)
+    unfold pnext at 1. change (toks p0) with (toks p). rewrite Ht.
+    pose proof (raw_sim text p0 s1 NE LT G0) as R. change (inPattern (lx p0)) with pat in R. rewrite E1 in R.
+    destruct R as (t2 & p1 & -> & M & SE & (F1 & F2 & F3) & G1).
+    destruct (is_code _ _ _ M) as (-> & _).
+    assert (Hp1 : inPattern (lx p1) = pat) by (destruct SE as (_ & _ & ->); reflexivity).
+    assert (Hhas : has = true) by (eapply pieces_has; eauto). subst has.
+    assert (Hfm : (S (length s1') <= S (length (after (cu (lx p1)))))%nat) by (destruct G1 as (_ & _ & _ & ->); lia).
+    destruct (concat_loop_sim text NE LT _ pat u s1' arg s2 c s3 Ha Hr (S (length (after (cu (lx p1))))) t2 p1 Hfm
+                ltac:(rewrite F1; exact Ht) G1 Hp1 M) as (t' & p' & -> & B & C & (SE' & D' & O') & E).
+    destruct (is_code _ _ _ B) as (-> & _). cbn [orb].
+    set (p2 := with_lx p' (with_inPattern (lx p') false)).
+    assert (P2 : ppos text p2 s2).
+    { destruct C as [Ct Cg|tt cc ss Ct Cq Cr Cg].
+      - apply PP_direct; [exact Ct|apply glex_inPattern; exact Cg].
+      - apply (PP_pushed text p2 s2 tt cc ss); [exact Ct|exact Cq|exact Cr|apply glex_inPattern; exact Cg]. }
+    destruct (pnext_plain text p2 s2 (KPunct c) s3 NE LT P2 Hr ltac:(discriminate)) as (t3 & p3 & -> & M3 & (SE3 & D3 & O3) & T3 & G3).
+    exists t3, p3. destruct B as [_ ->]. split; [reflexivity|]. split; [exact M3|]. split; [exact T3|]. split; [exact G3|].
+    destruct SE as (S1 & S2 & S3). destruct SE' as (S1' & S2' & S3'). destruct SE3 as (S4 & S5 & S6).
+    unfold p2, p0 in *. cbn [with_lx lx with_inPattern errs errcnt inPattern depth oof] in *.
+    repeat split; congruence.
+  - (* no argument: punctuation *)
+    injection Ha as <- <- <-. rewrite (read_token_punct_indep text pat s1 c s3 Hr) in E1. injection E1 as <- <-.
+    destruct (pnext_plain text p0 s1 (KPunct c) s3 NE LT P0 (read_token_punct_indep text pat s1 c s3 Hr) ltac:(discriminate))
+      as (t2 & p1 & -> & M & (SE & D1 & O1) & T1 & G1).
+    destruct (is_code _ _ _ M) as (-> & -> & _). cbn [orb].
+    exists t2, (with_lx p1 (with_inPattern (lx p1) false)). split; [reflexivity|]. split; [exact M|]. split; [exact T1|].
+    split; [apply glex_inPattern; exact G1|]. destruct SE as (S1 & S2 & S3).
+    unfold p0 in *. cbn [with_lx lx with_inPattern errs errcnt inPattern depth oof] in *. repeat split; congruence.
+  - (* no argument: end of text; then no punctuation follows *)
+    injection Ha as <- <- <-. rewrite (read_token_punct_indep text pat s1 c s3 Hr) in E1. discriminate.
+Qed.
+
+(* calling nextStatement again and again from [p] yields the statements [ss] and then [r] *)
+Inductive reads (mf : nat) : parser -> list stmt -> sres -> parser -> Prop :=
+| reads_end p r p' : nextStatement mf p = (r, p') -> (r = RBrace \/ r = RNil) -> reads mf p [] r p'
+| reads_cons p s p1 ss r p' : nextStatement mf p = (RStmt s, p1) -> reads mf p1 ss r p' -> reads mf p (s :: ss) r p'.
+
+Lemma subs_loop_reads mf mk : forall p ss r p', reads mf p ss r p' -> forall n acc, (length ss < n)%nat ->
+  subs_loop (nextStatement mf) mk n p acc =
+  (match r with RBrace => RStmt (mk (rev acc ++ ss)) | _ => RNil end, p').
+Proof.
+  induction 1 as [p r p' H Hr|p s p1 ss r p' H _ IH]; intros n acc Hn; (destruct n as [|n]; [cbn in Hn; lia|]); cbn [subs_loop]; rewrite H.
+  - destruct Hr as [->| ->]; [rewrite app_nil_r|]; reflexivity.
+  - rewrite IH by (cbn [length] in Hn; lia). cbn [rev]. rewrite <- app_assoc. reflexivity.
+Qed.
+
+Lemma parse_loop_reads mf : forall p ss p', reads mf p ss RNil p' -> forall n acc, (length ss < n)%nat ->
+  parse_loop mf n p acc = (rev acc ++ ss, p').
+Proof.
+  intros p ss p' H. remember RNil as r eqn:Er. induction H as [p r p' H Hr|p s p1 ss r p' H _ IH]; intros n acc Hn;
+    (destruct n as [|n]; [cbn in Hn; lia|]); cbn [parse_loop]; rewrite H.
+  - subst r. rewrite app_nil_r. reflexivity.
+  - rewrite (IH Er) by (cbn [length] in Hn; lia). cbn [rev]. rewrite <- app_assoc. reflexivity.
+Qed.
+
+Definition pframe' (p p' : parser) : Prop :=
+  errs (lx p') = errs (lx p) /\ errcnt (lx p') = errcnt (lx p) /\ oof p' = oof p.
+
+Lemma stmts_sim text : ~ In EOFR text -> lf_term text -> forall fs s nodes closed rest,
+  stmts fs text s = POk nodes closed rest ->
+  forall p mf, (fs <= mf)%nat -> ppos text p s -> inPattern (lx p) = false ->
+  exists ss r p', reads mf p ss r p' /\ map erase ss = nodes /\ (length ss < fs)%nat /\ pframe' p p' /\
+    (if closed then r = RBrace /\ ppos text p' rest /\ inPattern (lx p') = false /\ depth p' = depth p - 1
+     else r = RNil /\ depth p' = depth p).
+Proof.
+  intros NE LT. induction fs as [|fs IH]; intros s nodes closed rest Hs p mf Hmf P Hpat; [discriminate|].
+  destruct mf as [|mf]; [lia|]. cbn [stmts] in Hs.
+  destruct (read_token text false s) as [[kw|u|c|] s1| |] eqn:E1; try discriminate.
+  - (* a keyword *)
+    destruct (argument text (str_eqb kw s_pattern) s1) as [has arg s2| |] eqn:Ea; try discriminate.
+    destruct (read_token text false s2) as [[u|u|c|] s3| |] eqn:E3; try discriminate.
+    assert (E1' : read_token text (inPattern (lx p)) s = TOk (KUnq kw) s1) by (rewrite Hpat; exact E1).
+    destruct (pnext_plain text p s (KUnq kw) s1 NE LT P E1' ltac:(discriminate)) as (t & p1 & Hn1 & M & (SE1 & D1 & O1) & T1 & G1).
+    destruct (is_code _ _ _ M) as (_ & Hu & Hc). destruct M as [_ Mt].
+    destruct (read_arg_sim text p1 s1 _ has arg s2 c s3 NE LT T1 G1 Ea E3) as (t3 & p2 & Hra & M3 & T2 & G2 & Hp2 & X1 & X2 & X3 & X4).
+    destruct (is_code _ _ _ M3) as (_ & _ & Hc3).
+    assert (Hns : nextStatement (S mf) p =
+              let '(has, arg, t3, p) := read_arg p1 (str_eqb (t_text t) s_pattern) in
+              match t3 with
+              | None => (RNil, add_err p None EUnexpectedEOF None)
+              | Some t3 =>
+                if is_TChar cSEMI t3 then (RStmt (Stmt (t_text t) has arg (t_line t) (t_col t) (t_off t) []), p)
+                else if is_TChar cLB t3 then
+                  subs_loop (nextStatement mf) (fun l => Stmt (t_text t) has arg (t_line t) (t_col t) (t_off t) l) mf
+                    {| lx := lx p; toks := toks p; depth := depth p + 1; hb_line := hb_line p;
+                       hb_col := hb_col p; hb_off := hb_off p; oof := oof p |} []
+                else (RIgnore, add_err p (tok_pos t3) ESyntax (Some (t_off t3)))
+              end).
+    { rewrite nextStatement_eq, Hn1. rewrite (Hc cRB). change (cRB =? _)%N with false. cbv iota.
+      rewrite Hu. cbn [negb]. apply ns_tail_eq. }
+    rewrite Mt, Hra in Hns. rewrite (Hc3 cSEMI), (Hc3 cLB) in Hns.
+    assert (SE01 : errs (lx p1) = errs (lx p) /\ errcnt (lx p1) = errcnt (lx p)) by (destruct SE1 as (A & B & _); auto).
+    destruct (N.eqb_spec c cSEMI) as [->|Nsemi].
+    + (* kw [arg] ; *)
+      rewrite N.eqb_refl in Hns.
+      destruct (stmts fs text s3) as [f1 cl1 r1| |] eqn:Es3; try discriminate. cbn [pcons] in Hs. injection Hs as <- <- <-.
+      destruct (IH s3 f1 cl1 r1 Es3 p2 (S mf) ltac:(lia) (PP_direct text p2 s3 T2 G2) Hp2) as (ss & r & p' & R & Em & Hl & (Y1 & Y2 & Y3) & Hcl).
+      exists (Stmt kw has arg (t_line t) (t_col t) (t_off t) [] :: ss), r, p'.
+      split; [eapply reads_cons; [exact Hns|exact R]|]. split; [cbn [map erase]; rewrite Em; reflexivity|].
+      split; [cbn [length]; lia|]. split; [repeat split; destruct SE01; congruence|].
+      destruct cl1; [destruct Hcl as (A & B & C & D); repeat split; auto; congruence|destruct Hcl as (A & D); split; [exact A|congruence]].
+    + destruct (N.eqb_spec c cLB) as [->|Nlb]; [|discriminate].
+      (* kw [arg] { ... } *)
+      destruct (stmts fs text s3) as [subs cl1 s4| |] eqn:Es3; try discriminate. destruct cl1; [|discriminate].
+      destruct (stmts fs text s4) as [f2 cl2 r2| |] eqn:Es4; try discriminate. cbn [pcons] in Hs. injection Hs as <- <- <-.
+      set (p3 := {| lx := lx p2; toks := toks p2; depth := depth p2 + 1; hb_line := hb_line p2;
+                    hb_col := hb_col p2; hb_off := hb_off p2; oof := oof p2 |}) in *.
+      destruct (IH s3 subs true s4 Es3 p3 mf ltac:(lia) (PP_direct text p3 s3 T2 G2) Hp2) as (ss1 & r1 & p4 & R1 & Em1 & Hl1 & (Y1 & Y2 & Y3) & (-> & P4 & Hp4 & D4)).
+      rewrite (subs_loop_reads mf _ p3 ss1 RBrace p4 R1 mf [] ltac:(lia)) in Hns. cbn [rev app] in Hns.
+      destruct (IH s4 f2 cl2 r2 Es4 p4 (S mf) ltac:(lia) P4 Hp4) as (ss & r & p' & R & Em & Hl & (Z1 & Z2 & Z3) & Hcl).
+      exists (Stmt kw has arg (t_line t) (t_col t) (t_off t) ss1 :: ss), r, p'.
+      split; [eapply reads_cons; [exact Hns|exact R]|]. split; [cbn [map erase]; rewrite Em, Em1; reflexivity|].
+      split; [cbn [length]; lia|].
+      cbn [p3 lx depth oof] in *.
+      split; [repeat split; destruct SE01; congruence|].
+      destruct cl2; [destruct Hcl as (A & B & C & D); repeat split; auto; lia|destruct Hcl as (A & D); split; [exact A|lia]].
+  - (* } *)
+    destruct (N.eqb_spec c cRB) as [->|]; [|discriminate]. injection Hs as <- <- <-.
+    assert (E1' : read_token text (inPattern (lx p)) s = TOk (KPunct cRB) s1) by (rewrite Hpat; exact E1).
+    destruct (pnext_plain text p s (KPunct cRB) s1 NE LT P E1' ltac:(discriminate)) as (t & p1 & Hn1 & M & (SE1 & D1 & O1) & T1 & G1).
+    destruct (is_code _ _ _ M) as (_ & _ & Hc).
+    set (p2 := {| lx := lx p1; toks := toks p1; depth := depth p1 - 1; hb_line := t_line t; hb_col := t_col t;
+                  hb_off := t_off t; oof := oof p1 |}).
+    exists [], RBrace, p2. split.
+    + apply reads_end; [|left; reflexivity]. rewrite nextStatement_eq, Hn1, (Hc cRB), N.eqb_refl. reflexivity.
+    + split; [reflexivity|]. split; [cbn; lia|]. destruct SE1 as (A & B & C).
+      split; [repeat split; assumption|]. split; [reflexivity|]. split; [apply PP_direct; [exact T1|exact G1]|].
+      split; [cbn [p2 lx]; congruence|cbn [p2 depth]; lia].
+  - (* end of text *)
+    injection Hs as <- <- <-.
+    assert (E1' : read_token text (inPattern (lx p)) s = TOk KEnd s1) by (rewrite Hpat; exact E1).
+    destruct (pnext_plain text p s KEnd s1 NE LT P E1' ltac:(discriminate)) as (p1 & Hn1 & (SE1 & D1 & O1) & T1).
+    exists [], RNil, p1. split.
+    + apply reads_end; [|right; reflexivity]. rewrite nextStatement_eq, Hn1. reflexivity.
+    + split; [reflexivity|]. split; [cbn; lia|]. destruct SE1 as (A & B & C). split; [repeat split; assumption|].
+      split; [reflexivity|exact D1].
+Qed.
+
+Lemma terminated_lf input : lf_term (terminated input).
+Proof.
+  unfold terminated. destruct (rev input) as [|c r] eqn:E; [left; destruct input; [reflexivity|]|].
+  - apply (f_equal (@length rune)) in E. rewrite rev_length in E. discriminate.
+  - destruct (N.eqb_spec c cLF) as [->|]; right; [|eexists; reflexivity].
+    exists (rev r). rewrite <- (rev_involutive input), E. reflexivity.
+Qed.
+Lemma terminated_in input c : In c (terminated input) -> In c input \/ c = cLF.
+Proof.
+  unfold terminated. destruct (rev input) as [|x r]; [auto|]. destruct (x =? cLF)%N; [auto|].
+  intro H. apply in_app_or in H. destruct H as [H|[H|[]]]; auto.
+Qed.
+Lemma terminated_length input : (length (terminated input) <= S (length input))%nat.
+Proof.
+  unfold terminated. destruct (rev input) as [|x r]; [lia|]. destruct (x =? cLF)%N; [lia|]. rewrite app_length. cbn. lia.
+Qed.
+
+Theorem Parse_accepts input f : ~ In EOFR input -> spec_parse (terminated input) = Accept f ->
+  exists ss, Parse input = (ss, [], false) /\ map erase ss = f.
+Proof.
+  intros NE0 H. set (T := terminated input) in *.
+  assert (NE : ~ In EOFR T).
+  { intro Q. destruct (terminated_in _ _ Q) as [Q'|Q']; [exact (NE0 Q')|vm_compute in Q'; discriminate Q']. }
+  pose proof (terminated_lf input) as LT. fold T in LT.
+  unfold spec_parse in H. destruct (stmts (S (length T)) T T) as [f0 cl rest| |] eqn:Es; try discriminate.
+  destruct cl; [discriminate|]. injection H as <-.
+  assert (P0 : ppos T (newParser input) T).
+  { apply PP_direct; [reflexivity|]. split; [reflexivity|]. split; [reflexivity|]. split; [|reflexivity].
+    destruct (newParser_inv input) as [(_ & _ & L) _]. exact L. }
+  assert (Hmf : (S (length T) <= parse_fuel input)%nat).
+  { unfold parse_fuel. pose proof (terminated_length input). fold T in H. lia. }
+  destruct (stmts_sim T NE LT _ _ _ _ _ Es (newParser input) (parse_fuel input) Hmf P0 eq_refl)
+    as (ss & r & p' & R & Em & Hl & (Y1 & Y2 & Y3) & (-> & D)).
+  exists ss. split; [|exact Em].
+  unfold Parse. cbv zeta.
+  rewrite (parse_loop_reads _ _ _ _ R (parse_fuel input) [] ltac:(lia)). cbn [rev app].
+  change (errs (lx (newParser input))) with (@nil perr) in Y1. change (oof (newParser input)) with false in Y3.
+  change (depth (newParser input)) with 0 in D.
+  rewrite Y1, D. cbn. rewrite Y1, Y3. reflexivity.
 Qed.
